@@ -180,7 +180,7 @@ namespace Givaro {
 
     void* GivMMFreeList::resize (void* src, const size_t oldsize, const size_t newsize)
     {
-        if (src ==0) return _allocate(newsize) ;
+        if (src ==0) return _allocate(newsize)->data ;
         if (newsize <= oldsize) return src;
         BlocFreeList* tmp = reinterpret_cast<BlocFreeList*>(((char*)src)-sizeof(BlocFreeList)+sizeof(int64_t));
 #ifdef __GIVARO_DEBUG
@@ -194,6 +194,7 @@ namespace Givaro {
         if (BlocFreeList::TabSize[index] >= newsize) return src;
         tmp = GivMMFreeList::_allocate( newsize );
         if (oldsize !=0) ::memcpy( tmp->data, src, oldsize );
+        GivMMFreeList::desallocate(src); // the bloc has moved: release the old one
         return tmp->data;
     }
 
